@@ -120,7 +120,21 @@ func (r *real) apply(ws []string) (out string) {
 		if xerr != nil {
 			return "err"
 		}
-		return val(il.Read(keyOf(u(2))))
+		k := keyOf(u(2))
+		a := val(il.Read(k))
+		// the handle's own (initially empty) overlay must answer the committed value too
+		if b := val(il.Get(k)); b != a {
+			return a + " but-Get-answers " + b
+		}
+		// a historical handle is also used as a scratch view (the read-only account handler behind vm_call
+		// writes to it): whatever a reader writes there must stay private to that reader
+		if it, e := il.Get(k); e == nil && it != nil {
+			it.V += 7777
+			_ = il.Set(it)
+		} else {
+			_ = il.Set(&item{u(2), 7777})
+		}
+		return a
 	case "reopen":
 		_ = r.l.Close()
 		nr, err := openReal(r.dir)
